@@ -702,6 +702,40 @@ def make_sparse_script(rng, name, kind=None):
     return f"=== {name} plan={plan} nkeys={nb}\n" + "\n".join(g.lines) + "\n"
 
 
+def make_two_allocator_script(rng, name, kind=None):
+    """clone_from between two maps that were constructed SEPARATELY (two allocator instances, not clones
+    of one another) and hold different bucket counts, in both directions: every block must go back to
+    the allocator instance it came from (the harness gives every separately constructed handle its own
+    family number), contents must follow the source."""
+    kind = kind or rng.choice(["map-drop", "map-plain", "map-nc"])
+    plan = rng.choice(PLANS)
+    g = Gen(rng, 64, plan, kind)
+    g.resync = False; g.many = False; g.forget = False
+    g.header()
+    for rnd in range(rng.choice([2, 3, 4])):
+        na, nb = rng.choice([(3, 20), (20, 3), (0, 9), (9, 0), (7, 8), (14, 15), (28, 29), (29, 28), (5, 50), (50, 5), (12, 12)])
+        for k in rng.sample(range(64), na):
+            g.op_insert(k)
+        g.emit("o_swap"); g.contents, g.other = dict(getattr(g, "other", {})), dict(g.contents)
+        for k in rng.sample(range(64), nb):
+            g.op_insert(k)
+        if rng.random() < 0.3 and g.contents:
+            for k in list(g.contents)[: len(g.contents) // 2]:
+                g.op_remove(k)
+        g.emit("o_clone_from"); g.contents = dict(g.other)
+        g.emit("len"); g.emit("iter"); g.emit("o_eq")
+        if rng.random() < 0.5:
+            g.emit("shrinktofit")
+        g.emit("o_swap"); g.contents, g.other = dict(g.other), dict(g.contents)
+        if rng.random() < 0.5:
+            g.emit("o_clone_from"); g.contents = dict(g.other)
+        g.emit(rng.choice(["dropmap", "clear", "len"]))
+        if g.lines[-1] in ("dropmap", "clear"):
+            g.contents = {}
+    g.emit("dropmap")
+    return f"=== {name} plan={plan} nkeys=64\n" + "\n".join(g.lines) + "\n"
+
+
 FAULT_MATRIX = [
     # (arm, operation template) -- every callback class at every operation that runs it
     ("droppanic_nth", "retain"), ("droppanic_nth", "clear"), ("droppanic_nth", "drain"), ("droppanic_nth", "dropmap"),
